@@ -627,6 +627,10 @@ def call_method(ex, recv, name, args, kw, st, where):
     if isinstance(recv, str):
         yield Opaque("strmethod"), st
         return
+    if type(recv).__name__ == "NameOfV" and name == "lower":
+        from .exec import NameOfV
+        yield NameOfV(recv.sym, lower=True), st
+        return
     if isinstance(recv, DatetimeV):
         if name == "time":
             t = recv.epoch
